@@ -217,4 +217,43 @@ theorem flush_appended (F : Faults) (w : W) (hg : w.Good) :
   · rw [if_pos hs]; exact ⟨Appended.refl F w hg, fun _ => hg.unbuf hs⟩
   · rw [if_neg hs]; exact bflush_appended F w hg
 
+theorem writeRest_n (F : Faults) (size n : Nat) (p : Bytes) (f : W × Bool) (hn : n ≤ p.length)
+    (hend : f.1.d.pos = f.1.d.content.length)
+    (hok : (W.writeRest F size n p.length (p.drop n) f).2.2 = true) :
+    (W.writeRest F size n p.length (p.drop n) f).2.1 = p.length := by
+  obtain ⟨w2, fok⟩ := f
+  unfold W.writeRest at hok ⊢
+  cases fok with
+  | false => simp at hok
+  | true =>
+    rw [if_neg (by simp)] at hok ⊢
+    by_cases hfit2 : (p.drop n).length ≤ size
+    · rw [if_pos hfit2]
+    · rw [if_neg hfit2] at hok ⊢
+      have := (Dest.write_atEnd F w2.d (p.drop n) hend).2.2.1 hok
+      simp only at this ⊢
+      rw [this, List.length_drop]; omega
+
+/-- a successful `Write` accepted every byte -/
+theorem write_n (F : Faults) (w : W) (p : Bytes) (hg : w.Good) (hok : (w.write F p).2.2 = true) :
+    (w.write F p).2.1 = p.length := by
+  unfold W.write at hok ⊢
+  by_cases hs : w.size = 0
+  · rw [if_pos hs] at hok ⊢
+    exact (Dest.write_atEnd F w.d p hg.atEnd).2.2.1 hok
+  · rw [if_neg hs] at hok ⊢
+    by_cases hbe : w.berr = true
+    · rw [if_pos hbe] at hok; cases hok
+    · rw [if_neg hbe] at hok ⊢
+      by_cases hfit : p.length ≤ w.size - w.buf.length
+      · rw [if_pos hfit]
+      · rw [if_neg hfit] at hok ⊢
+        by_cases hemp : w.buf.isEmpty = true
+        · rw [if_pos hemp] at hok ⊢
+          exact (Dest.write_atEnd F w.d p hg.atEnd).2.2.1 hok
+        · rw [if_neg hemp] at hok ⊢
+          have hfill := Appended.buffered F w (p.take (w.size - w.buf.length)) hg hs
+          obtain ⟨hfl, _⟩ := bflush_appended F _ hfill.good
+          exact writeRest_n F _ _ p _ (by omega) hfl.good.atEnd hok
+
 end Fit.Writer
